@@ -12,12 +12,20 @@ UTIL = "scpi::parser::tokenizer::util::"
 KEYWORDS = {b"MAXimum", b"MINimum", b"DEFault", b"UP", b"DOWN", b"INFinity", b"NINFinity", b"NAN", b"ONCE"}
 
 
+def tk_fn(u, name):
+    """the free function `name` of the tokenizer (util, token, ... - wherever a refactoring put it)"""
+    hits = [b for b in u.bodies if b.kind == "Fn" and b.npath.startswith("scpi::parser::tokenizer::") and b.npath.endswith("::" + name) and not b.parent_fn]
+    if len(hits) != 1:
+        raise facts.AnchorLost("function %s in scpi::parser::tokenizer (found %d)" % (name, len(hits)))
+    return hits[0]
+
+
 def engine():
     P = D.prog()
     u = P.unit("scpi")
     models = dict(M.FOLD_MODELS)
     # every function of the tokenizer's util/token modules is analysed in place, whatever helpers the code is split into
-    inl = lambda n, r: r.startswith((UTIL, "scpi::parser::tokenizer::token::"))
+    inl = lambda n, r: r.startswith("scpi::parser::tokenizer::")
     return fdai.Engine(P, u, inline=inl, models=models, loop_limit=64, max_paths=64)
 
 
@@ -136,7 +144,7 @@ def run(R, tier):
     thorough = tier == "thorough"
 
     # ---- R03.1 short/long form: mnemonic_compare over class-representative strings -----------------------------------
-    mc = u.body(UTIL + "mnemonic_compare")
+    mc = tk_fn(u, "mnemonic_compare")
     shorts = [b"A", b"AB"] + ([b"ABC"] if thorough else [])
     tails = [b"", b"c", b"cd"] + ([b"cde"] if thorough else [])
     defs = [a + t for a in shorts for t in tails]
@@ -180,7 +188,7 @@ def run(R, tier):
     R.count("compare_evaluations", n)
 
     # ---- R03.2 numeric suffix: mnemonic_match ------------------------------------------------------------------------------
-    mm = u.body(UTIL + "mnemonic_match")
+    mm = tk_fn(u, "mnemonic_match")
     names = [b"AB", b"ABc"]
     sufs = [b"", b"1", b"2", b"12"] + ([b"10", b"01"] if thorough else [])
     c_alpha = [b"AB", b"ab", b"ABC", b"abc", b"aBc", b"A", b"ABCD", b"ABX", b"abx", b""]
@@ -202,7 +210,7 @@ def run(R, tier):
     R.count("match_evaluations", n)
 
     # ---- R03.3 split rule -----------------------------------------------------------------------------------------------------------
-    sp = u.body(UTIL + "mnemonic_split_index")
+    sp = tk_fn(u, "mnemonic_split_index")
     bad = []
     probes = [b"", b"1", b"12", b"A", b"Ab", b"A1", b"A12", b"Ab12", b"1A", b"1A2", b"A1B", b"A1B2", b"_1", b"a0", b"A_", b"A_1"]
     for x in probes:
